@@ -186,8 +186,15 @@ def run(model, col, tier):
                   f"GetPass hands out module-level object(s) {singles}: visitor state survives from one compilation to the next", rel, gp)
     col.floor("R18.2", "pass factories", npass, 18)
     comp = pipe.compile
-    t = unparse(comp)
-    col.check("lowerPass = LowerToIR.GetPass()" in t and "wasmPass = GenerateWasm.GetPass()" in t, "R18.2", f"{COMPILER}::Compile creates lowering/wasm passes per compilation", "GetPass() is called inside Compile", "the lowering / wasm pass (and its context) is not created per compilation", COMPILER, comp)
+    # the pass objects that Compile runs (`<x>.Process(..)`) for lowering and wasm generation are results of GetPass() calls made
+    # inside Compile (directly or through a local), never attributes of the compiler object
+    per_compile = {}
+    for modname in ("LowerToIR", "GenerateWasm"):
+        made = [n for n in ast.walk(comp) if isinstance(n, ast.Call) and last_attr(n) == "GetPass" and modname in unparse(n.func)]
+        per_compile[modname] = bool(made)
+    procs = [c for c in ast.walk(comp) if isinstance(c, ast.Call) and last_attr(c) == "Process" and isinstance(c.func, ast.Attribute)]
+    on_self = [unparse(c.func.value) for c in procs if unparse(c.func.value).startswith(comp.args.args[0].arg + ".")]
+    col.check(all(per_compile.values()) and not on_self, "R18.2", f"{COMPILER}::Compile creates lowering/wasm passes per compilation", "GetPass() is called inside Compile", "the lowering / wasm pass (and its context) is not created per compilation", COMPILER, comp)
     # ---------------- R18.2 (ii) module/class level mutables never mutated --------------
     mlm = module_level_mutables(model, {r for r in model.files if r.startswith("nsl/")})
     col.note("module/class-level mutable objects", [f"{r}::{n}" for r, n, _, _ in mlm])
